@@ -19,6 +19,8 @@ ASSUMPTIONS = ["the application passes a compression object created by jpeg_crea
 def classify(op, R):
     p = op.split(" ")
     r = R.split(" ")
+    if p[0] == "creuse":
+        return "creuse:n%s" % p[2]
     if p[0] == "rstrows":
         return "rstrows:" + p[3]
     if p[0] == "cparam":
@@ -31,6 +33,9 @@ def gen_ops(rng, tier):
     ops = []
     for i in range(30000 if big else 4000):
         ops.append("cparam %d %d" % (rng.choice([0, 0, 0, 1, 2, 3, 4, 5, 6, 7]), rng.randrange(1 << 30)))
+    # one compression object for a sequence of images with different component counts and coding modes
+    for i in range(600 if big else 80):
+        ops.append("creuse %d %d" % (rng.randrange(1 << 30), rng.randint(2, 6)))
     # restart interval given in MCU rows, around the 16-bit limit of the DRI segment (rows x MCUs per row = 65535, 65536, more)
     for (w, h, rows) in ((2048, 2064, 255), (2048, 2064, 256), (2048, 2072, 257), (8, 40, 3), (4096, 1032, 128), (4104, 1040, 127)):
         ops.append("rstrows %d %d %d 0" % (w, h, rows))
